@@ -3,16 +3,17 @@ package main
 import (
 	"errors"
 	"fmt"
+	"net/http/httptest"
 	"strconv"
 	"strings"
 	"time"
 
-	c "verif/harness/common"
 	"verif/harness/cmd/c02/ss"
+	c "verif/harness/common"
 )
 
 type TokSpec struct {
-	Prov   string // jwk | jwk2 | k8s
+	Prov   string // jwk | jwk2 | k8s | oidc (id = nonce; JTI is the nonce) | admintok (x5c admin token) | renewtok (x5cInsecure renew token)
 	JTI    string // "r" = random, "-" = no jti claim, anything else = that literal (shared between tokens)
 	IatOff int    // seconds the iat lies before the mint instant
 	NoIat  bool   // no iat claim
@@ -23,7 +24,7 @@ type TokSpec struct {
 type ReqSpec struct {
 	Tok    int
 	Spell  int    // 0 tok, 1 tok+"\n", 2 " "+tok, 3 tok+"="
-	Method string // sign | revoke
+	Method string // sign | revoke (Authority.Authorize) | admin (Authority.AuthorizeAdminToken) | renewtoken (Authority.AuthorizeRenewToken)
 	Skip   bool   // authority.NewContextWithSkipTokenReuse
 }
 
@@ -87,6 +88,55 @@ func (e *env) mintTok(ts *TokSpec, jtis map[string]string) *minted {
 		exp = now.Add(-10 * time.Minute)
 	}
 	switch ts.Prov {
+	case "oidc":
+		// JTI plays the nonce; no nonce => the id is the hash of the presented string
+		delete(claims, "jti")
+		if jti != "" {
+			claims["nonce"] = jti
+		}
+		claims["iss"], claims["aud"], claims["azp"] = e.oidcSrv.URL, oidcClient, oidcClient
+		claims["sub"], claims["email"], claims["email_verified"] = "user-"+randHex(), "user@example.com", true
+		claims["exp"] = exp.Unix()
+		key := e.oidcKey.Key
+		switch ts.Defect {
+		case "badsig":
+			key = e.jwk2.Key
+		case "aud":
+			claims["aud"], claims["azp"] = "someone-else", "someone-else"
+			m.lookupOK = false
+		case "kid":
+			claims["aud"] = "someone-else" // provisioner found through azp, audience validation fails
+		}
+		m.str = mintHdr(key, "ES256", map[string]any{"kid": e.oidcKey.KeyID}, claims)
+		good := ts.Defect == "" && (ts.NoIat || ts.IatOff < 3000)
+		m.valid["sign"] = good
+		m.valid["revoke"] = false // only OIDC admins may revoke; user@example.com is not one
+		m.idr = "k" + c.X(jti)
+	case "admintok", "renewtok":
+		// tokens of the two entry points that call UseToken themselves; signed by a certificate of the CA.
+		// These paths have no issued-at-before-start test: the model gets iat "-".
+		m.hasIat = false
+		claims["sub"] = e.leaf.Subject.CommonName
+		claims["nbf"] = now.Add(-time.Minute).Unix()
+		claims["exp"] = exp.Unix()
+		key := any(e.leafKey)
+		if ts.Defect == "badsig" {
+			key = e.jwk2.Key // the chain is fine, the signature is not the leaf's: both paths verify it before UseToken
+			m.lookupOK = false
+		}
+		if ts.Prov == "admintok" {
+			claims["iss"], claims["aud"] = "step-admin-client/1.0", "https://ca.verif.test/admin/admins"
+			m.str = mintHdr(key, "ES256", map[string]any{"x5c": e.chain()}, claims)
+			m.valid["admin"] = false // no admin is configured: refused after the record is stored
+		} else {
+			claims["iss"], claims["aud"] = "step-ca-client/1.0", "https://ca.verif.test/1.0/renew"
+			if ts.Defect == "aud" {
+				claims["aud"] = "https://ca.verif.test/1.0/sign"
+			}
+			m.str = mintHdr(key, "ES256", map[string]any{"x5cInsecure": e.chain()}, claims)
+			m.valid["renewtoken"] = ts.Defect == "" || ts.Defect == "kid"
+		}
+		m.idr = "k" + c.X(jti)
 	case "k8s":
 		claims["iss"] = "kubernetes/serviceaccount"
 		claims["kubernetes.io/serviceaccount/namespace"] = "default"
@@ -155,6 +205,7 @@ func runHist(h *Hist) (string, string) {
 	e := newEnv(h.DB, h.NoChk, hooks)
 	defer func() { e.close() }()
 	start0 := e.startSec()
+	base := len(ss.Dump(e.ca.DB, "used_ott")) // the environment's own provisioning token (certificate for x5c tokens)
 
 	events := make(chan evt, 4*n+4)
 	gates := make([]chan bool, n) // true = go on, false = abort (process stopped)
@@ -220,7 +271,15 @@ func runHist(h *Hist) (string, string) {
 			}()
 			rq := h.Reqs[i]
 			m := toks[rq.Tok]
-			_, err := e.ca.Auth.Authorize(methodCtx(e.ca.Auth, rq.Method, rq.Skip), spell(m.str, rq.Spell))
+			var err error
+			switch rq.Method {
+			case "admin":
+				_, err = e.ca.Auth.AuthorizeAdminToken(httptest.NewRequest("GET", "https://ca.verif.test/admin/admins", nil), spell(m.str, rq.Spell))
+			case "renewtoken":
+				_, err = e.ca.Auth.AuthorizeRenewToken(methodCtx(e.ca.Auth, "sign", false), spell(m.str, rq.Spell))
+			default:
+				_, err = e.ca.Auth.Authorize(methodCtx(e.ca.Auth, rq.Method, rq.Skip), spell(m.str, rq.Spell))
+			}
 			events <- evt{t: i, kind: "done", ok: err == nil}
 		}()
 	}
@@ -335,7 +394,7 @@ func runHist(h *Hist) (string, string) {
 	}
 	size := stored
 	if h.DB {
-		size = len(ss.Dump(e.ca.DB, "used_ott"))
+		size = len(ss.Dump(e.ca.DB, "used_ott")) - base
 	}
 	outs := make([]string, n)
 	for i := range outs {
@@ -408,8 +467,17 @@ func cornerHists() []*Hist {
 			{1, 0, "sign", false}, {1, 0, "sign", false}, {1, 1, "sign", false}}, Sched: seqSched(7)})
 		// exemptions: skip context and K8sSA reuse; same jti under two provisioners
 		hs = append(hs, &Hist{DB: dbm, Toks: []TokSpec{good, {Prov: "k8s", JTI: "r"}, {Prov: "jwk", JTI: "a", Aud: "sign"}, {Prov: "jwk2", JTI: "a", Aud: "sign"}},
-			Reqs: []ReqSpec{{0, 0, "sign", false}, {0, 0, "signid", true}, {0, 0, "signid", true}, {1, 0, "sign", false}, {1, 0, "sign", false}, {2, 0, "sign", false}, {3, 0, "sign", false}},
+			Reqs:  []ReqSpec{{0, 0, "sign", false}, {0, 0, "signid", true}, {0, 0, "signid", true}, {1, 0, "sign", false}, {1, 0, "sign", false}, {2, 0, "sign", false}, {3, 0, "sign", false}},
 			Sched: seqSched(7)})
+		// OIDC through Authorize: the nonce is the id (replay, same nonce in another token, no nonce => hash of the string)
+		hs = append(hs, &Hist{DB: dbm, Toks: []TokSpec{{Prov: "oidc", JTI: "r"}, {Prov: "oidc", JTI: "n"}, {Prov: "oidc", JTI: "n"}, {Prov: "oidc", JTI: "-"}},
+			Reqs:  []ReqSpec{{0, 0, "sign", false}, {0, 0, "sign", false}, {1, 0, "sign", false}, {2, 0, "sign", false}, {3, 0, "sign", false}, {3, 1, "sign", false}, {0, 0, "revoke", false}},
+			Sched: []int{0, 0, 0, 1, 1, 1, 2, 2, 2, -1, 3, 3, 3, 4, 4, 4, 5, 5, 5, 6, 6, 6}})
+		// the entry points that call UseToken themselves: admin token and renew token, replayed, across a restart,
+		// racing; an id shared with a provisioning token
+		hs = append(hs, &Hist{DB: dbm, Toks: []TokSpec{{Prov: "renewtok", JTI: "r"}, {Prov: "admintok", JTI: "r"}, {Prov: "renewtok", JTI: "z"}, {Prov: "jwk", JTI: "z", Aud: "sign"}},
+			Reqs:  []ReqSpec{{0, 0, "renewtoken", false}, {0, 0, "renewtoken", false}, {1, 0, "admin", false}, {1, 0, "admin", false}, {0, 0, "renewtoken", false}, {1, 0, "admin", false}, {2, 0, "renewtoken", false}, {3, 0, "sign", false}},
+			Sched: []int{0, 1, 1, 0, 1, 0, 2, 3, 2, 3, 3, 2, -1, 4, 4, 4, 5, 5, 5, 6, 6, 6, 7, 7, 7}})
 		// issued-at: old token on a fresh CA; with the check disabled
 		hs = append(hs, &Hist{DB: dbm, Toks: []TokSpec{{Prov: "jwk", JTI: "r", IatOff: 30, Aud: "sign"}, {Prov: "jwk", JTI: "r", NoIat: true, Aud: "sign"}},
 			Reqs: []ReqSpec{{0, 0, "sign", false}, {1, 0, "sign", false}}, Sched: seqSched(2)})
@@ -431,11 +499,17 @@ func genHist(r *c.Rng) *Hist {
 	nt := 1 + r.Intn(4)
 	for i := 0; i < nt; i++ {
 		ts := TokSpec{Prov: "jwk", JTI: "r", Aud: "sign"}
-		switch r.Intn(10) {
+		switch r.Intn(14) {
 		case 0:
 			ts.Prov = "jwk2"
 		case 1:
 			ts.Prov = "k8s"
+		case 2, 3:
+			ts.Prov = "oidc"
+		case 4:
+			ts.Prov = "admintok"
+		case 5:
+			ts.Prov = "renewtok"
 		}
 		switch r.Intn(8) {
 		case 0, 1:
@@ -472,6 +546,12 @@ func genHist(r *c.Rng) *Hist {
 			rq.Method = "revoke"
 		}
 		rq.Skip = r.Chance(1, 12)
+		switch h.Toks[rq.Tok].Prov {
+		case "admintok":
+			rq.Method, rq.Skip = "admin", false
+		case "renewtok":
+			rq.Method, rq.Skip = "renewtoken", false
+		}
 		h.Reqs = append(h.Reqs, rq)
 	}
 	// schedule: requests arrive in groups of 1..3 whose three phases are interleaved at random;
